@@ -19,8 +19,8 @@ PROPERTY = "C19"
 
 # CODE VARIANT FLAGS — which variant of the code the model is compared with (fields of `Ansi.Cfg` in
 # lean/RichModel/Model/Ansi.lean).  1 = rich 9.10.0 as found, 0 = repaired (see /verif/pending_fixes/C19-*.diff).
-INT_RAISES = 1   # F10: AnsiDecoder.decode_line lets int()'s ValueError out ("\x1b[²m", > 4300 digits)
-FLUSH_RAW = 1    # F20: FileProxy.flush prints the pending text as a str (markup / emoji / highlight on, not decoded)
+INT_RAISES = 0   # F10: AnsiDecoder.decode_line lets int()'s ValueError out ("\x1b[²m", > 4300 digits)
+FLUSH_RAW = 0    # F20: FileProxy.flush prints the pending text as a str (markup / emoji / highlight on, not decoded)
 FLAGS = "".join(str(int(bool(x))) for x in (INT_RAISES, FLUSH_RAW))
 # development aid only (trying a pending fix in a scratch worktree): VERIF_C19_FLAGS=00 overrides the constants above
 FLAGS = os.environ.get("VERIF_C19_FLAGS") or FLAGS
@@ -121,7 +121,7 @@ def section_tokenizer(ctx, tick):
         for t in itertools.product(TOK_ALPHA, repeat=n):
             one("".join(t))
     alpha2 = TOK_ALPHA + ["?", "/", "@", "~", "8", "Z", "_", "\r", "é", "1"]
-    for _ in range(15000 if ctx.quick else 200000):
+    for _ in range(30000 if ctx.quick else 300000):
         n = rng.randint(5, 14)
         one("".join(rng.choice(alpha2 if rng.random() < 0.5 else TOK_ALPHA) for _ in range(n)))
     if tok is None:
@@ -264,12 +264,12 @@ def section_decoder(ctx, tick):
     for n in range(kmax + 1):
         for t in itertools.product(DEC_ALPHA, repeat=n):
             decode_line_case(ctx, "".join(t), tick)
-    for _ in range(6000 if ctx.quick else 120000):
+    for _ in range(12000 if ctx.quick else 150000):
         n = rng.randint(4, 10)
         decode_line_case(ctx, "".join(rng.choice(DEC_ALPHA) for _ in range(n)), tick)
     # structured streams
     links = ["http://e.x", "", "a;b", "ü", "x y"]
-    for _ in range(6000 if ctx.quick else 120000):
+    for _ in range(12000 if ctx.quick else 150000):
         parts = []
         for _ in range(rng.randint(1, 6)):
             r = rng.random()
@@ -405,7 +405,7 @@ def section_roundtrip(ctx, tick):
     def combine(sts):
         return Style.combine(sts)
 
-    n_cases = 2500 if ctx.quick else 40000
+    n_cases = 5000 if ctx.quick else 60000
     for case_no in range(n_cases):
         # ---- (a) segment lists: Style.render / _render_buffer vs the encoder model, then decode
         segs = []
@@ -743,7 +743,7 @@ def section_proxy(ctx, tick):
         tick(ops)
         eval_history(ctx, ops, check_rows="²" not in repr(ops))
     # ---- random histories over the property alphabet (rows checked) and over the malformed one (model only)
-    for k in range(2500 if ctx.quick else 40000):
+    for k in range(5000 if ctx.quick else 60000):
         tricky = k % 4 == 3
         lines = [rand_line(rng, tricky) for _ in range(rng.randint(1, 5))]
         s = "\n".join(lines) + rng.choice(["\n", "\n", ""])
@@ -882,7 +882,7 @@ def replay(ctx, case):
 
             AnsiDecoder().decode_line(inp)
             ok = True
-        elif site.startswith("FileProxy") and isinstance(inp, list) and all(isinstance(o, (list, tuple)) for o in inp):
+        elif site.startswith("FileProxy") and not site.startswith("FileProxy x2") and isinstance(inp, list) and all(isinstance(o, (list, tuple)) for o in inp):
             ops = [("w", o[1]) if o[0] == "write" else ("f", False) for o in inp]
             eval_history(ctx, ops, check_rows=True)
             ok = not ctx.failures
@@ -896,7 +896,33 @@ def replay(ctx, case):
 
 
 MANIFEST = {
-    "text": "filled in below",
-    "note": "",
+    "text": "Lean 4 theorems (Props/C19.lean; no bound on line length, number of segments, styles, or history length). "
+    "Round trip: decode_encode — for every line of segments whose text has no ESC / stripped control code, whose links have no ESC / line "
+    "break and whose colours are in the form the constructors build, and for every blank decoder state, `_render_buffer` (truecolor, "
+    "Style.render + _make_ansi_codes) followed by AnsiDecoder.decode_line yields per character the same character, the same attributes "
+    "that are on (13), the same colours (type, number, triplet) and the same link, and leaves the decoder blank; decode_encode_lines lifts it to "
+    "texts decoded line after line by one decoder; decode_plain_complete (escape-free lines come out unchanged); the table half "
+    "(sgr_table_inverts_style_map, sgr_numbers_read_back) is re-proved by `decide +kernel` on SGR_STYLE_MAP / Style._style_map translated from "
+    "the working tree and on str.isdigit / int() tables of the running Python on every run.  Proxy: proxy_lines — for every history of write / flush "
+    "calls the texts handed to the console are exactly the decoded units of the flattened character stream (cut at every newline and at every "
+    "flush with something pending), each once, in order, one decoder state carried along, nothing raised, the unterminated rest stays buffered; "
+    "proxy_chunking_irrelevant (where writes are cut plays no role), proxy_writes_complete_lines, proxy_flush_empties, proxy_verbatim (every print is "
+    "a decoded Text with markup / emoji / highlight off), decode_total (the repaired decoder never raises).  Witnesses old_decode_raises, "
+    "old_flush_prints_raw, old_write_loses_line show by evaluation that the code as found (F10, F20) violates them.  "
+    "Tie: ~150k (quick) / ~1.5M (thorough) generated cases compared model-vs-rich for _ansi_tokenize, re_csi removal, decode_line / decode "
+    "(final decoder style included), Style.render / _render_buffer, and FileProxy histories (what the proxy asks console.print to print, per call), "
+    "plus direct evaluation on rich's own output with oracles independent of the model: harness/term.py tokenizer + an ECMA-48 reading of SGR "
+    "for the per-character meaning of streams, and a 15-line specification of the units a history must print; real Live / Progress redirect stdout "
+    "and stderr.",
+    "note": "The proxy model stops at console.print (what is asked of the console); what the console then writes is only evaluated directly on the "
+    "real output, on a wide console (wrapping is C02's, tab expansion and CR handling are outside the statement).  Assumed / parameters: "
+    "Style._ansi cache transparent while every console is truecolor (C03 owns F7); link ids; str.isdigit / int / get_int_max_str_digits / "
+    "str.splitlines of the running Python (generated or validated per run); lru_cache on Style.parse transparent; console.print of a Text with "
+    "markup off does not raise.  Round-trip hypotheses: no ESC, BS, VT, FF, CR in text; no ESC / LF / CR in links; no `;` in link ids; colours "
+    "canonical (a WINDOWS-type colour reads back as STANDARD: compared by terminal meaning in the harness, outside the theorem); AnsiDecoder.decode "
+    "additionally splits at VT FF FS GS RS NEL LS PS (str.splitlines), so a printed text containing those decodes into more lines than were printed "
+    "(observed, outside the statement's texts).  Known deviations of the decoder from terminal semantics that the encoder never exercises: SGR 0 also "
+    "drops the hyperlink; 24 / 25 keep the double underline / rapid blink; `ESC [ m` (empty parameter) is ignored instead of resetting.  "
+    "Trusted: Lean kernel; axioms propext / Classical.choice / Quot.sound; translators harness/tables.py + harness/gen/sgr_map.py; the correspondence harness.",
     "design_ref": "DESIGN.md section 7, C19",
 }
